@@ -116,7 +116,8 @@ func (m *monC09) OnStep(r *Runner, st *Step) {
 		Td, Td2 := a.TotalTokens, pa.TotalTokens
 		started := !T.Before(a.RewardStartTime)
 		eligible := fires && Td.IsPositive() && a.TakeRate.IsPositive() && started
-		toFee := netTransfer(fl, r.W.ModuleAddr.String(), r.W.FeeCollector.String(), d)
+		// (rewards in this denom that could be credited to nobody also go back to the fee collector in end-of-block)
+		toFee := netTransfer(fl, r.W.ModuleAddr.String(), r.W.FeeCollector.String(), d).Sub(returnedRewards(r, st.Events).AmountOf(d))
 		// (b) exact transfer (the only custody -> fee-collector movement inside end-of-block)
 		r.Eval("C09.b")
 		if !toFee.Equal(Td.Sub(Td2)) {
